@@ -141,3 +141,10 @@ MUTANTS += [
     ('C18-export-load-in-torque-unit', ['C18'], EX, "        'load torque': load_torque_unit,", "        'load torque': torque_unit,"),
     ('C18-export-time-raw', ['C18'], EX, "        instant.to(time_unit).value for instant in time_array", "        instant.value for instant in time_array"),
 ]
+MOB = 'gearpy/mechanical_objects/mechanical_object_base.py'
+MUTANTS += [
+    ('C17-revert-D6', ['C17'], 'gearpy/utils/relations.py', "    if worm_wheel.tangential_force_is_computable:\n        if worm_wheel.bending_stress_is_computable:", "    if False:\n        if worm_wheel.bending_stress_is_computable:"),
+    ('C17-skip-load-torque-sample', ['C17'], MOB, "        self.__time_variables['load torque'].append(self.__load_torque)", "        if self.__load_torque is not None and self.__load_torque.value != 0:\n            self.__time_variables['load torque'].append(self.__load_torque)"),
+    ('C17-pwm-appended-twice-on-dead-zone', ['C17'], M, "        self.time_variables['pwm'].append(self.pwm)", "        self.time_variables['pwm'].append(self.pwm)\n        if self.pwm == 0.5:\n            self.time_variables['pwm'].append(self.pwm)"),
+    ('C17-contact-key-created-without-face-width', ['C17'], 'gearpy/mechanical_objects/spur_gear.py', "            if self.bending_stress_is_computable:\n                self.time_variables['bending stress'] = []", "            if self.elastic_modulus is not None:\n                self.time_variables['contact stress'] = []\n            if self.bending_stress_is_computable:\n                self.time_variables['bending stress'] = []"),
+]
